@@ -181,6 +181,17 @@ func c12Sim(t *testing.T, run *Run, sc c12Scenario) {
 		if blocked {
 			os.RemoveAll(w.StatePath + ".tmp")
 		}
+		repeated := false
+		if blocked && rec.Err == "" && (c.Kind == "stop" || c.Kind == "pause" || c.Kind == "resume" || c.Kind == "rollout-set" || c.Kind == "rollout-stop") {
+			// the obstacle is gone and the operator repeats the command (it changes nothing in the
+			// proxy): when it returns, the file is current again
+			if r2 := c.Exec(w, w.Router); r2.Err == "" && r2.Panic == "" {
+				repeated = true
+				blocked = false
+				run.Count("command_repeated_after_a_failed_save", 1)
+			}
+		}
+		_ = repeated
 		if rec.Panic != "" {
 			fail("panic:"+c.Kind, "command panicked: %s", rec.Panic)
 			return
